@@ -836,8 +836,8 @@ def main(tier: str) -> int:
                       {}, found_input=False)
         return run.finish()
     rng = random.Random(run.seed * 104729 + 8)
-    n_random = 2400 if tier == "quick" else 40000
-    n_mal = 600 if tier == "quick" else 10000
+    n_random = 2400 if tier == "quick" else 30000
+    n_mal = 600 if tier == "quick" else 8000
     exh_len = 3 if tier == "quick" else 4
 
     cases = []
